@@ -160,6 +160,21 @@ func checkC03(c *Check) {
 	c03CommitOrder(c)
 	c03Permits(c)
 	c03GetDelivery(c)
+
+	// R5c: "every rate or concurrency permit taken for the transaction is returned" also inside the limiter group: a
+	// TakeMsg that fails at a narrower scope gives back what the wider scopes granted, the remote target pairs its
+	// destination permits. C11's pairing rules (R2), a clause of this property too.
+	c.Rule("R5c", "permits inside the limiter group and below the endpoint: a failing TakeMsg rolls back exactly the scopes it acquired; the destination permit of the remote target is released or owned on every exit (C11.R2)", 7)
+	sub11 := newCheck("C11", c.P, c.Tier)
+	c11Pairing(sub11)
+	for _, o := range sub11.obs {
+		if o.Rule == "R2" {
+			c.Hold("R5c", o.Key, o.posRaw, o.OK, o.Msg)
+		}
+	}
+	for f := range sub11.funcs {
+		c.SawFunc(f)
+	}
 }
 
 func c03Assumption(c *Check) {
